@@ -149,10 +149,10 @@ def showArts (a : Artifacts) : String :=
 def showLink (l : Link) : String :=
   s!"{hexOfStr l.name} {showArts l.arts.materials} {showArts l.arts.products} {hexOfBytes l.extra}"
 
+/-- the inspection commands that were started, in the order in which they were started -/
 def showEvents (ev : List Event) : String :=
   let names := ev.map fun e => match e with | .inspectionStarted p n => hexOfStr (joinPath p) ++ ":" ++ hexOfStr n
-  let sorted := names.toArray.qsort (· < ·) |>.toList
-  String.intercalate " " (s!"E{sorted.length}" :: sorted)
+  String.intercalate " " (s!"E{names.length}" :: names)
 
 def revOrd : Ord := { perm := fun _ {_} l => l.reverse }
 def idOrd : Ord := { perm := fun _ {_} l => l }
@@ -196,14 +196,11 @@ def runVerify (toks : List String) : String :=
         | .err 99 => "unmodelled"
         | .err _ => "err"
         | .panic s => s!"panic {s}"
-      -- when verification fails, which inspections of *sub-layouts* had already run depends on the
-      -- order in which sibling sub-layouts are visited (hash order): compare the top level only
-      let ev' := match res with
-        | .ok _ => ev
-        | _ => ev.filter fun e => match e with | .inspectionStarted p _ => p.isEmpty
-      (if missing then "model-ran-an-inspection-the-implementation-did-not " else "") ++ head ++ " " ++ showEvents ev'
-    let a := go idOrd
-    let b' := go revOrd
+      -- (delegated evidence is visited in layout order and key-id order: the sequence of inspection
+      -- commands is determined, in failing runs too, and compared as a sequence)
+      (if missing then "model-ran-an-inspection-the-implementation-did-not " else "") ++ head ++ " " ++ showEvents ev
+    let a := go (seqOrd idOrd)
+    let b' := go (seqOrd revOrd)
     if a == b' then a else "ORDER-DEPENDENT [" ++ a ++ "] [" ++ b' ++ "]"
 
 end InToto.Proto
